@@ -33,7 +33,8 @@ MANIFEST = {
     "technique": "Lean 4 proof that the four declaration constructors (mirroring add_argument dispatch, _add_signature_parameter, "
                  "_create_group_if_requested, set_defaults, ActionParser._move_parser_actions) produce the same action table, for flat and for "
                  "recursive field lists with declared group defaults + parse fold over tables + regenerated set_defaults loop table "
-                 "+ differential correspondence of tables and results on four real parsers per field list",
+                 "+ differential correspondence of tables and results on four real parsers per field list "
+                 "+ option-lookup model (routeOpt) with the regenerated statements of parse_argv_item; inputs incl. abbreviated and unknown member options",
     "text": "Theorems in lean/Jap/Props/C07.lean prove, for all keys, defaults mappings and RECURSIVE field lists (a field may be a sub-group, any "
             "depth), without side conditions: (C07_same_table) the dotted, dataclass, class-arguments and inner-parser constructors produce the same "
             "dests, option strings, required set and DEFAULTS - the declared group default where one was given (outermost wins), else the class "
@@ -47,16 +48,23 @@ MANIFEST = {
             "recursive with declared defaults), the four real parsers' action tables with the model's and every real parse result with the model's. "
             "(C07_moved_required, C07_inner_required_source) the inner-parser style carries over the inner parser's required SET with the prefix, tied to "
             "the regenerated AST facts of ActionParser._move_parser_actions; field lists with a class-typed member (required through "
-            "add_subclass_arguments: no flagged action) are compared on the real code only (tables incl. required sets, then inputs).",
+            "add_subclass_arguments: no flagged action) are compared on the real code only (tables incl. required sets, then inputs). "
+            "(C07_route_same_with_loaders, C07_argv_item_source) where a command-line item that is not an exact option string goes - a typed parent action, the "
+            "unique option it abbreviates, ambiguous, unknown - does not depend on the loader options `--g` the three non-dotted styles add; tied to the "
+            "regenerated statements of ActionTypeHint.parse_argv_item (a parent action is used only under `if typehint:`). The generators spell member options "
+            "also as abbreviations and give unknown member names a mapping value; the harness expands unique abbreviations before handing items to the model.",
     "level_note": "Trusted: Lean kernel; axioms propext/Quot.sound/Classical.choice only; the harness; the YAML loader as an oracle (every text that "
                   "occurs is loaded by jsonargparse's own load_value and handed to the model). In recursive lists every leaf has a class default and "
                   "keys of a defaults mapping name fields of the group. Types outside the six-type grammar, positionals, help/usage text and "
                   "instantiate_classes are outside the model. Class-typed members are outside the Lean tables (oracle on the real code only; "
-                  "the moved required set is tied by the extractor fact).",
+                  "the moved required set is tied by the extractor fact). argparse's prefix matching itself is trusted (transcribed as `routeOpt` / "
+                  "`expand_abbrev`). Open finding C07-inner-class-help-option: the inner-parser style lacks the `--key.member.help` option of class-typed members.",
 }
 
 STYLES = ["dotted", "dataclass", "class", "inner"]
 F_WHOLE = "C07-dotted-whole-group"
+F_INNERHELP = "C07-inner-class-help-option"
+F_SUBGROUPNULL = "C07-subclass-group-null"
 KEY_POOL = ["grp", "opts", "net"]
 NAME_POOL = ["alpha", "beta", "gamma", "delta", "eps", "lam"]
 TYPES = ["int", "str", "bool", "float", "optInt", "listInt", "optListInt", "optDictStrInt", "optTupleIntStr", "optLitAB"]
@@ -192,6 +200,27 @@ def unwire(v):
 
 
 # ---------------------------------------------------------------- inputs
+_FILES = []
+
+
+def value_files():
+    """existing readable files whose NAMES are used as plain string values: a member value that happens to name a file must be treated the same
+    in the four styles (a signature-derived member must not get path loading that a plain argument does not have).  Deterministic location, created
+    by run() and replay() themselves."""
+    if not _FILES:
+        import tempfile
+
+        d = os.path.join(tempfile.gettempdir(), "c07_value_files")
+        os.makedirs(d, exist_ok=True)
+        for name, text in (("nums.txt", "4\n5\n"), ("one.txt", "7\n"), ("words.txt", "alpha\nbeta\n"), ("list.json", "[1, 2]\n")):
+            path = os.path.join(d, name)
+            if not os.path.exists(path) or open(path).read() != text:
+                with open(path, "w") as f:
+                    f.write(text)
+            _FILES.append(path)
+    return _FILES
+
+
 def gen_input(rng, key, fields, modname=None):
     """one input mix: {"mode": argv|string|object|env, "argv": [...], "env": {...}, "tree": {...}}"""
     mode = rng.choice(["argv", "argv", "argv", "string", "object", "env", "argvcfg"])
@@ -202,6 +231,8 @@ def gen_input(rng, key, fields, modname=None):
         if f["ty"] == "cls":
             pl = cls_pools(f, modname)
             return rng.choice(pl["good_raw"] if valid_bias or rng.random() < 0.4 else pl["bad_raw"])
+        if f["ty"] in ("listInt", "optListInt", "str", "int", "optInt") and rng.random() < (0.1 if f["ty"] in PLUS else 0.04):
+            return rng.choice(value_files())        # a plain string that names an existing file
         pool = RAW_APPEND if append else RAW[f["ty"]]
         if append and f["ty"] == "optListInt":
             pool = [x for x in RAW_APPEND if x != "null"]      # (`+=null` on Optional[List] lets the None member of the Union take over: not modelled)
@@ -215,6 +246,8 @@ def gen_input(rng, key, fields, modname=None):
         if f["ty"] == "cls":
             pl = cls_pools(f, modname)
             return copy.deepcopy(rng.choice(pl["good_native"] if valid_bias or rng.random() < 0.4 else pl["bad_native"]))
+        if f["ty"] in ("listInt", "optListInt", "str") and rng.random() < (0.08 if f["ty"] in PLUS else 0.03):
+            return rng.choice(value_files())
         pool = NATIVE[f["ty"]]
         if valid_bias:
             pool = dict({"int": [1, -3, "2"], "str": ["hello", "1"], "bool": [True, False], "float": [1.5, 2], "optInt": [None, 4], "listInt": [[1, 2], []]}, **GOOD_NATIVE)[f["ty"]]
@@ -230,6 +263,8 @@ def gen_input(rng, key, fields, modname=None):
                 g[f["name"]] = native_for(f)
         if rng.random() < (0.05 if valid_bias else 0.25):
             g["zz9"] = rng.choice([1, {}, {"q": 1}])
+        if rng.random() < 0.12:
+            g[rng.choice(fields)["name"]] = None
         t = {key: g}
         if rng.random() < (0.03 if valid_bias else 0.15):
             t["yy8"] = rng.choice([1, {}, "x"])
@@ -251,6 +286,26 @@ def gen_input(rng, key, fields, modname=None):
             args.insert(rng.randint(0, len(args)), "--%s=%s" % (key, json.dumps(g) if rng.random() < 0.9 else rng.choice(["3", "abc", "null"])))
         if not valid_bias and rng.random() < 0.3:
             args.append("--%s.zz9=1" % key)
+        # `null` for a member, whatever its type and default: which members take None is part of the declaration (a signature-derived member must
+        # not become Optional because of its default value)
+        if rng.random() < 0.2:
+            args.insert(rng.randint(0, len(args)), "--%s.%s=null" % (key, rng.choice(fields)["name"]))
+        # member options that are NOT spelled exactly: an abbreviation of a member option (argparse resolves a unique prefix; a list member has
+        # `--g.m` and `--g.m+`, so its abbreviation is ambiguous) and an unknown member name whose value is a mapping of members.  The option
+        # lookup must not depend on whether the group key has a loader option (`--g`) of its own.
+        if args and rng.random() < 0.3:
+            i = rng.randrange(len(args))
+            name, _, val = args[i].partition("=")
+            member = name[len(key) + 3:]
+            if name.startswith("--%s." % key) and not name.endswith("+") and len(member) > 1:
+                args[i] = "--%s.%s=%s" % (key, member[:rng.randint(1, len(member) - 1)], val)
+        if rng.random() < (0.08 if valid_bias else 0.3):
+            g = {}
+            for f in fields:
+                if rng.random() < 0.6:
+                    g[f["name"]] = native_for(f)
+            unknown = rng.choice(["zz9", "z", rng.choice(fields)["name"] + "x"])
+            args.insert(rng.randint(0, len(args)), "--%s.%s=%s" % (key, unknown, json.dumps(g)))
         rng.shuffle(args) if rng.random() < 0.3 else None
         return args
 
@@ -388,6 +443,15 @@ def strings_of(v, acc):
             strings_of(x, acc)
 
 
+def expand_abbrev(k, opts):
+    """argparse's option lookup (trusted): an exact option string, else the option a UNIQUE prefix stands for; anything else stays as written
+    (unknown or ambiguous: an error in the code, an unknown option for the model)"""
+    if k in opts:
+        return k
+    m = [o for o in opts if o.startswith(k)]
+    return m[0] if len(m) == 1 else k
+
+
 def model_items(inp, key, fields, loads):
     """the sources in the order the parse methods apply them: environment (group variable, then the arguments in
     declaration order), then the main source"""
@@ -402,12 +466,17 @@ def model_items(inp, key, fields, loads):
         if var in inp["env"]:
             items.append({"t": "opt", "k": "%s.%s" % (key, f["name"]), "v": inp["env"][var]})
     main = []
+    opts = []
+    for f in fields:
+        opts.append("%s.%s" % (key, f["name"]))
+        if f["ty"] in PLUS:
+            opts.append("%s.%s+" % (key, f["name"]))
     for a in inp["argv"]:
         k, _, v = a[2:].partition("=")
         if k == key:
             main.append({"t": "wholeOpt", "v": ld.get(v, v)})
         else:
-            main.append({"t": "opt", "k": k, "v": v})
+            main.append({"t": "opt", "k": expand_abbrev(k, opts) if k.startswith(key + ".") else k, "v": v})
     if inp["mode"] == "argvcfg":
         main.insert(inp["cfgpos"], {"t": "tree", "v": base.wire_val(inp["tree"])})
     elif inp["mode"] in ("string", "object"):
@@ -458,10 +527,37 @@ def judge(ctx, key, fields, inp, results, stats, origin, ext=None):
                                "a string for the group key in a config is accepted")
             stats["known"] += 1
             continue
+        if st in ("dotted", "inner") and ext is None and ctx.is_open(F_SUBGROUPNULL) and nulls_subclass_group_member(inp, key, fields):
+            ctx.known(F_SUBGROUPNULL, "a required class-typed member declared with add_subclass_arguments(required=True) (dotted / inner-parser styles) accepts `--key.member=null` "
+                                      "on the command line (the requirement is checked at the end only); the signature styles reject the null at once")
+            stats["known"] += 1
+            continue
+        if st == "inner" and ext is None and ctx.is_open(F_INNERHELP) and abbreviates_class_member(inp, key, fields):
+            ctx.known(F_INNERHELP, "the inner-parser style has no `--key.member.help` option for a class-typed member: an abbreviation `--key.m` of `--key.member` is "
+                                   "ambiguous in the other three styles and accepted in the inner-parser style")
+            stats["known"] += 1
+            continue
         what = "styles %s and %s disagree on the same input: %s vs %s" % (ref_style, st, summary(ref), summary(r))
         ctx.violation(what, replay)
         stats["violations"] += 1
         return
+
+
+def nulls_subclass_group_member(inp, key, fields):
+    """the command line gives `null` to a REQUIRED class-typed member that the dotted / inner styles declare with add_subclass_arguments, and a later item
+    gives the member a value again (so that the end-of-parse requirement is met)"""
+    members = ["--%s.%s" % (key, f["name"]) for f in fields if f.get("ty") == "cls" and f["node"].get("via") == "subclass_group" and f["node"]["req"]]
+    return any(a.partition("=")[0] in members and a.partition("=")[2] == "null" for a in inp["argv"])
+
+
+def abbreviates_class_member(inp, key, fields):
+    """an option of the command line is a proper prefix of the option of a class-typed member (or its `.help` option is asked for)"""
+    members = ["%s.%s" % (key, f["name"]) for f in fields if f.get("ty") == "cls"]
+    for a in inp["argv"]:
+        k = a[2:].partition("=")[0]
+        if any((m.startswith(k) and m != k and k.startswith(key + ".")) or k == m + ".help" for m in members):
+            return True
+    return False
 
 
 def summary(r):
@@ -949,7 +1045,10 @@ def gen_ext_input(rng, ext):
     if mode == "argv":
         for f in flat:
             if rng.random() < 0.4:
-                inp["argv"].append("--%s.%s=%s" % (key, f["name"], rng.choice(RAW[f["ty"]] if bad else good[f["ty"]])))
+                v = rng.choice(RAW[f["ty"]] if bad else good[f["ty"]])
+                if f["ty"] in PLUS and rng.random() < 0.1:
+                    v = rng.choice(value_files())
+                inp["argv"].append("--%s.%s=%s" % (key, f["name"], v))
             if f["ty"] in PLUS and rng.random() < 0.5:
                 inp["argv"].append("--%s.%s+=%s" % (key, f["name"], rng.choice(["3", "[4,5]"])))
         if rng.random() < 0.3:
@@ -960,6 +1059,23 @@ def gen_ext_input(rng, ext):
                 inp["argv"].insert(rng.randint(0, len(inp["argv"])), "--%s=%s" % (key, json.dumps(some_group_json(""))))
         if bad and rng.random() < 0.4:
             inp["argv"].append("--%s.%szz9=1" % (key, (rng.choice(groups) + ".") if groups and rng.random() < 0.6 else ""))
+        # options not spelled exactly (see gen_input): an abbreviation of a leaf option - only where the options it is a prefix of are the same
+        # with and without the loader options of the groups (the dotted style has none: open finding C07-dotted-whole-group) - and an unknown
+        # name below the root / a sub-group whose value is a mapping
+        leaf_opts, group_opts = ext_option_sets(ext)
+        if inp["argv"] and rng.random() < 0.3:
+            i = rng.randrange(len(inp["argv"]))
+            name, _, val = inp["argv"][i].partition("=")
+            k = name[2:]
+            if k in leaf_opts and not k.endswith("+"):
+                stem, _, last = k.rpartition(".")
+                if len(last) > 1:
+                    ab = stem + "." + last[:rng.randint(1, len(last) - 1)]
+                    if [o for o in leaf_opts if o.startswith(ab)] == [o for o in leaf_opts + group_opts if o.startswith(ab)]:
+                        inp["argv"][i] = "--%s=%s" % (ab, val)
+        if rng.random() < (0.3 if bad else 0.08):
+            gname = (rng.choice(groups) + ".") if groups and rng.random() < 0.6 else ""
+            inp["argv"].insert(rng.randint(0, len(inp["argv"])), "--%s.%s%s=%s" % (key, gname, rng.choice(["zz9", "z"]), json.dumps(some_group_json(gname))))
         if rng.random() < 0.25:
             for f in flat:
                 if rng.random() < 0.3:
@@ -976,6 +1092,20 @@ def gen_ext_input(rng, ext):
             if rng.random() < 0.4:
                 inp["env"]["APP_%s__%s" % (key.upper(), f["name"].upper().replace(".", "__"))] = rng.choice(RAW[f["ty"]] if bad else good[f["ty"]])
     return inp
+
+
+def ext_option_sets(ext):
+    """(option keys of the leaves incl. the `+` forms, option keys of the group loaders)"""
+    key = ext["key"]
+    leaves, groups = [], {key}
+    for path, n in ext_leaves(ext["fields"]):
+        leaves.append(key + "." + path)
+        if n["ty"] in PLUS:
+            leaves.append(key + "." + path + "+")
+        parts = path.split(".")
+        for i in range(1, len(parts)):
+            groups.add(key + "." + ".".join(parts[:i]))
+    return leaves, sorted(groups)
 
 
 def ext_uses_whole(inp, ext):
@@ -1017,8 +1147,11 @@ def model_items_ext(inp, ext, loads):
         if var in inp["env"]:
             items.append({"t": "opt", "p": dest.split("."), "plus": False, "v": inp["env"][var]})
     main = []
+    leaf_opts, group_opts = ext_option_sets(ext)
     for a in inp["argv"]:
         k, _, v = a[2:].partition("=")
+        if k not in group_opts:
+            k = expand_abbrev(k, leaf_opts)
         plus = k.endswith("+")
         k = k[:-1] if plus else k
         if k in leaves or plus:
@@ -1135,6 +1268,7 @@ def run_ext(ctx, ext, inputs, parsers, out, stats, origin):
 
 def run(ctx: Ctx):
     repo_python_path()
+    value_files()
     ctx.rule = ("(a) flat field lists of 1-4 fields over {int,str,bool,float,Optional[int],List[int]} with/without defaults, declared in the four styles as real "
                 "parsers; per field list a mix of inputs over {argv dotted options, `+` appends, whole-group JSON option, --cfg JSON at a random position, "
                 "config string, object, environment variables incl. the whole-group variable}, valid and invalid (wrong types, unknown keys, missing "
@@ -1151,7 +1285,7 @@ def run(ctx: Ctx):
         "field names do not start with '_'; an Optional[...] field without default is stated as default=None on the plain arguments of the dotted / inner styles",
         "the order of parameters is the same in the four declarations (parameters without default first)",
     ]
-    ctx.lean_build(extractors=["set_defaults_loop", "signature_optional", "move_parser_required"])
+    ctx.lean_build(extractors=["set_defaults_loop", "signature_optional", "move_parser_required", "argv_item_route"])
     stats = {"violations": 0, "known": 0, "disagree": 0}
     from ..lib import corpus as corpus_mod
 
@@ -1212,7 +1346,7 @@ def run(ctx: Ctx):
     # --- replay of catalogued findings
     for f in ctx.open_findings():
         w = f["witness"]
-        parsers, _ = build_four(w["key"], w["fields"])
+        parsers, _ = build_four_cls(w["key"], w["clsfields"]) if "clsfields" in w else build_four(w["key"], w["fields"])
         res = {st: run_input(parsers[st], w["input"]) for st in STYLES}
         ctx.count(4)
         ref = res["dataclass"]
@@ -1227,6 +1361,7 @@ def run(ctx: Ctx):
 
 def replay(ctx: Ctx, body):
     repo_python_path()
+    value_files()
     r = body["replay"]
     if r.get("kind") == "table":
         parsers, src = build_four(r["key"], r["fields"])
